@@ -412,6 +412,145 @@ class C14:
         return 0
 
 
+
+# ---------------------------------------------------------------- generic outcome-based check
+class OutcomeCheck:
+    """Correspondence (whole run) on a deterministic core and a seeded random
+    family; oracle comparison with the reference semantics R on the core.
+
+    Deviations from R on the core must be exactly the listed known findings.
+    On the random family the oracle is consulted only for programs on which the
+    implementation differs from the model (behaviour the faithful model does not
+    have): that is how a concrete failing input is searched when the tie breaks."""
+    level = "proof"
+    design_ref = "DESIGN.md section 8"
+    kinds = ("missing", "missed-failure", "spurious-failure", "forbidden")
+    ref_mode = "ref"          # "ref" = SC atomics, "refw" = unconstrained atomics
+    cap = 3000
+    assumptions = [
+        "theorems are about the Coq model L; L is tied to src/rt by whole-run correspondence (every decision of every iteration, every result, the outcome) on the families",
+        "R (Ref.v) is the specification of what outcomes a program can produce",
+    ]
+
+    def det_family(self, ctx):
+        return []
+
+    def rnd_family(self, ctx):
+        return []
+
+    def extra(self, ctx, fam, lines):
+        return []
+
+    def relevant(self, dev):
+        return dev.split(":")[0] in self.kinds
+
+    def run(self, ctx):
+        res = {"coverage": {}, "violations": [], "broken": [], "known": []}
+        known = Known(ctx.root, ctx.pid)
+        det = self.det_family(ctx)
+        rnd = self.rnd_family(ctx)
+        cov = {"samples": [], "rule": self.rule}
+        fam_d = FamilyRun(ctx, det, "det", cap=self.cap) if det else None
+        fam_r = FamilyRun(ctx, rnd, "rnd", cap=self.cap) if rnd else None
+        nprog = nit = 0
+        mism_total = 0
+        aborts = []
+        outcomes = {}
+        for name, fam in (("core", fam_d), ("random", fam_r)):
+            if fam is None:
+                continue
+            st = fam.stats()
+            nprog += st["programs"]
+            nit += st["iterations"]
+            for k, v in st["outcomes"].items():
+                outcomes[k] = outcomes.get(k, 0) + v
+            aborts += fam.aborts
+            mm = fam.whole_run_mismatches()
+            mism_total += len(mm)
+            if mm:
+                m = mm[0]
+                res["broken"].append(
+                    f"correspondence L vs implementation ({name} family): program `{m.get('prog', '?')}` iteration {m.get('iteration')}: impl `{str(m.get('impl'))[:160]}` model `{str(m.get('model'))[:160]}`")
+                # search: programs whose behaviour the model does not reproduce
+                rk = driver_keys(self.ref_mode, fam.file)
+                for m in mm:
+                    i = m.get("index")
+                    if i is None or i not in fam.parsed:
+                        continue
+                    ik, ifinal = impl_keys(fam.parsed[i])
+                    for d in oracle_deviations(ik, ifinal, rk[i]["keys"]):
+                        if self.relevant(d) and not known.match(fam.lines[i], d):
+                            res["violations"].append({"prog": fam.lines[i], "deviation": d, "found_by": "search after correspondence mismatch"})
+            for v in self.extra(ctx, fam, fam.lines):
+                res["violations"].append(v)
+        ndev = 0
+        nknown = 0
+        if fam_d is not None:
+            viol, nknown, ost = oracle_compare(ctx, fam_d, known, self.ref_mode)
+            ndev = ost["programs_deviating_from_R"]
+            for v in viol:
+                if self.relevant(v["deviation"]):
+                    res["violations"].append(v)
+        for a in aborts:
+            d = "abort:" + a["crash"]
+            if not known.match(a["prog"], d):
+                res["violations"].append({"prog": a["prog"], "deviation": d})
+            else:
+                nknown += 1
+        res["known"] = known.lines()
+        alllines = det + rnd
+        cov.update({
+            "programs": nprog, "iterations": nit, "disagreements_checked": mism_total,
+            "oracle_programs": len(fam_d.parsed) if fam_d else 0, "programs_deviating_from_R": ndev,
+            "known_finding_instances_reproduced": nknown,
+            "evaluations": nit, "distinct_nontrivial": len({norm_prog(l) for l in alllines}),
+            "samples": sample_programs(alllines), "outcomes": outcomes,
+            "aborts": len(aborts),
+        })
+        res["coverage"] = cov
+        ctx.cleanup()
+        return res
+
+    def replay(self, ctx, path):
+        d = json.load(open(path))
+        print(json.dumps(d, indent=1)[:4000])
+        v = d.get("violation") or {}
+        if "prog" in v:
+            f = os.path.join(ctx.dir, "replay.txt")
+            open(f, "w").write(v["prog"] + "\n")
+            fam = FamilyRun(ctx, [v["prog"]], "replay", cap=self.cap)
+            rk = driver_keys(self.ref_mode, fam.file)
+            for i, p in fam.parsed.items():
+                ik, ifinal = impl_keys(p)
+                print("implementation outcomes:", sorted(ik))
+                print("reference outcomes     :", sorted(rk[i]["keys"]))
+                print("deviations             :", oracle_deviations(ik, ifinal, rk[i]["keys"]))
+        ctx.cleanup()
+        return 0
+
+
+def mk(cls_name, **kw):
+    return type(cls_name, (OutcomeCheck,), kw)()
+
+
+class C01(OutcomeCheck):
+    kinds = ("missing", "missed-failure")
+    technique = "Coq model + refutation/partial theorems; whole-run correspondence; outcome-set oracle against the interleaving semantics R"
+    rule = "bounded-exhaustive F-sync core (2-3 threads x <=2 macro-ops per object kind, SC atomics) + seeded random programs over all object kinds; distinct = program text"
+    level_text = ("The full completeness statement (every outcome of the interleaving semantics R is explored) is a Coq Definition; DPOR completeness is not proved. "
+                  "Proved: the DFS over registered alternatives is exhaustive and terminating (C14 theorems), the Path API contract. The faithful model is tied to the code by "
+                  "whole-run correspondence; the implementation's outcome sets are compared with R's on a bounded-exhaustive core, where every deviation must be a listed known finding.")
+    level_note = "partial: completeness of the partial-order reduction itself is validated by the oracle on bounded programs, not proved"
+
+    def det_family(self, ctx):
+        return gen.fam_sync_core(ctx.tier)
+
+    def rnd_family(self, ctx):
+        n = 200 if ctx.tier == "quick" else 2000
+        return gen.family_random(ctx.seed, n, list("AMRCNHUPFY"), nthreads=(2, 3), maxops=3, prefix="c01r")
+
+
 HOOK_COMMITS = ["8f72140"]
+FIX_COMMITS = ["4a97b3f", "e9415b5", "1d4f62f", "36c0d26", "7942235"]
 NOT_CLAIMED = {}
-REGISTRY = {"C14": C14()}
+REGISTRY = {"C14": C14(), "C01": C01()}
